@@ -211,6 +211,13 @@ func runFixtures(vdir string) (map[string]string, error) {
 					got = true
 				}
 			})
+		case strings.HasPrefix(rest, "Park"):
+			engine = "parking operations"
+			eachInstr(f, func(in ssa.Instruction) {
+				if parksOn(in) != "" {
+					got = true
+				}
+			})
 		case strings.HasPrefix(rest, "Draw"):
 			engine = "draw order"
 			steps, ordered := drawSeq(f, f.Params[0])
